@@ -219,14 +219,20 @@ def gen():
 
 
 def sh(cmd, cwd, env=None, timeout=600):
+    """Runs cmd in its own process group; on timeout the whole group is killed (a mutant's test
+    binary that spins forever must not outlive its cargo parent)."""
+    import signal
+    p = subprocess.Popen(cmd, cwd=cwd, env=env, stdout=subprocess.PIPE, stderr=subprocess.STDOUT, text=True, errors='replace', start_new_session=True)
     try:
-        p = subprocess.run(cmd, cwd=cwd, env=env, stdout=subprocess.PIPE, stderr=subprocess.STDOUT, text=True, errors='replace', timeout=timeout)
-        return p.returncode, p.stdout
-    except subprocess.TimeoutExpired as e:
-        o = e.stdout
-        if isinstance(o, bytes):
-            o = o.decode('utf-8', 'replace')
-        return None, o or ''
+        out, _ = p.communicate(timeout=timeout)
+        return p.returncode, out
+    except subprocess.TimeoutExpired:
+        try:
+            os.killpg(p.pid, signal.SIGKILL)
+        except ProcessLookupError:
+            pass
+        out, _ = p.communicate()
+        return None, out or ''
 
 
 def setup_worker(i):
